@@ -22,6 +22,7 @@ from ..engine import LVec
 from ..verdict import Result
 
 LEVEL = "exploration"
+AWKWARD_REGISTRATION_MIX = True
 RULE = ("for every ordered pair of coordinate systems of equal dimension (4+36+144), pairs of float64 vectors whose "
         "stored coordinate groups are bit-identical or perturbed according to every subset pattern (none, each single "
         "coordinate, proper subsets, all); ==, !=, equal, not_equal, isclose, allclose and the numpy.* spellings on object, "
